@@ -6,4 +6,5 @@ import Lox.Rang3.Proofs.Heap
 import Lox.Rang3.Proofs.Normalize
 import Lox.Rang3.Proofs.FlattenLog
 import Lox.Rang3.Proofs.Canonical
+import Lox.Rang3.Proofs.Relabel
 /-! Helper lemmas for the `rang3` model (property C15); see the modules for the content. -/
